@@ -799,7 +799,7 @@ def gen_cases(rng, tier):
     n_uni = 10 if tier == "quick" else 150
     per = 24 if tier == "quick" else 40
     for _ in range(n_uni):
-        u = gen_universe(rng, n_roots=rng.choice([1, 2, 2]), max_levels=2, rich=rng.random() < 0.6)
+        u = gen_universe(rng, n_roots=rng.choice([1, 2, 2]), max_levels=2, rich=rng.random() < 0.6, force_falsy=rng.random() < 0.35)
         # more than half of the class families validate in their own __post_init__ (late-failing constructions)
         rules = []
         if rng.random() < 0.6:
